@@ -502,6 +502,13 @@ class _FuncAnalysis:
                     else:
                         out |= self.elems({b})
                 return out
+            if isinstance(n.slice, ast.Slice) and base and all(
+                    b[0] == 'fresh' and isinstance(b[1][1], tuple) and b[1][1][0] in ('literal', 'comp', 'slice') for b in base):
+                # a slice of a list built here (a display or a comprehension) is a NEW list holding the same members:
+                # storing into it (sizes[:-1] = ...) changes neither the list it was cut from nor the members
+                s2 = self.site_for(n, 'slice')
+                self.heap[s2].setdefault('[*]', set()).update(self.elems(base))
+                return {s2}
             out = self.elems(base)
             if isinstance(n.slice, ast.Slice) or (isinstance(n.slice, ast.Tuple) and any(
                     isinstance(e, ast.Slice) for e in n.slice.elts)) or isinstance(n.slice, ast.Name):
